@@ -16,8 +16,10 @@ Proof. reflexivity. Qed.
    Premises (M1): apart from the six reserved names the only user entries that do not arrive
    as sent are those under a protocol name tonic itself writes ON THAT PATH WITH THAT
    CONFIGURATION: grpc-encoding when a send / response encoding is in force, grpc-accept-encoding
-   when the client accepts compressed responses, grpc-status-details-bin when the status has
-   details.  They are replaced by tonic's value (the *_wire theorems say by what).  grpc-timeout
+   when the client accepts compressed responses, grpc-status-details-bin on every status path
+   (with details it is replaced by them, without details it is REMOVED - fix ed827503 of finding
+   F-C04e: before it such an entry stayed and was read back as the details of the status).
+   They are replaced by tonic's value (the *_wire theorems say by what).  grpc-timeout
    and every other name are inside the statements. ---- *)
 
 (* client request (client::Grpc -> Request::into_http(Sanitize::Yes) -> te, content-type,
@@ -57,7 +59,7 @@ Theorem c08_status_wire : forall st m0,
   well_formed st ->
   exists h cv, add_header st m0 = Some h /\ code_to_hv (st_code st) = Some cv /\
   forall k, hm_get_all h k =
-    if set_by hdr_grpc_status_details (details_value st) k then opt_list (details_value st)
+    if bytes_eqb hdr_grpc_status_details k then opt_list (details_value st)
     else if set_by hdr_grpc_message (msg_value st) k then opt_list (msg_value st)
     else if bytes_eqb hdr_grpc_status k then [cv]
     else match (if is_reserved k then [] else hm_get_all (st_md st) k) with
@@ -69,7 +71,7 @@ Proof. exact add_header_wire. Qed.
 Theorem c08_md_wire_roundtrip_status : forall st m0,
   well_formed st ->
   exists h, add_header st m0 = Some h /\
-  forall k, is_reserved k = false -> (details_value st = None \/ k <> hdr_grpc_status_details) ->
+  forall k, is_reserved k = false -> k <> hdr_grpc_status_details ->
     hm_get_all (from_headers h) k = match hm_get_all (st_md st) k with [] => hm_get_all m0 k | l => l end.
 Proof. exact status_roundtrip_md. Qed.
 
@@ -90,6 +92,15 @@ Theorem c08_status_metadata_received : forall st m0,
     hm_get_all (st_md st') hdr_grpc_status = [] /\ hm_get_all (st_md st') hdr_grpc_message = [] /\
     hm_get_all (st_md st') hdr_grpc_status_details = [].
 Proof. exact status_metadata_received. Qed.
+
+(* the details the peer reads are the status's own for EVERY custom metadata and base map - an
+   entry named grpc-status-details-bin among them is neither delivered nor read as the details
+   (F-C04e, fixed by commit ed827503), with empty and with non-empty details *)
+Theorem c08_status_details_received : forall st m0,
+  well_formed st ->
+  exists h st', add_header st m0 = Some h /\ from_header_map h = Some st' /\
+    st_details st' = st_details st.
+Proof. exact status_details_received. Qed.
 
 (* Status::into_http (trailers-only response) never reaches its unwrap and is add_header onto
    {content-type: application/grpc} *)
@@ -368,5 +379,6 @@ Print Assumptions c08_insert_entry_typing.
 Print Assumptions c08_keys_typing.
 Print Assumptions c08_binary_end_to_end.
 Print Assumptions c08_status_metadata_received.
+Print Assumptions c08_status_details_received.
 Print Assumptions c08_trailers_merged.
 Print Assumptions c08_static_key_typing.
